@@ -59,6 +59,148 @@ func DataN(r *R, n int) abs.HB {
 	return abs.HB(r.Bytes(n))
 }
 
+// Addr makes an n-octet address field with the values that mean something to IP code: 16-octet values inside
+// ::ffff:0:0/96 (IPv4-mapped, the form package net hands out for IPv4), ::, ::1, IPv4-compatible, NAT64, link-local,
+// and for 4 octets 0.0.0.0, broadcast, loopback, private ranges.  Other sizes fall back to DataN.
+func Addr(r *R, n int) abs.HB {
+	switch n {
+	case 4:
+		switch r.Intn(8) {
+		case 0:
+			return abs.HB{0, 0, 0, 0}
+		case 1:
+			return abs.HB{255, 255, 255, 255}
+		case 2:
+			return abs.HB{127, 0, 0, 1}
+		case 3:
+			return abs.HB{10, 0, 0, byte(r.Intn(256))}
+		case 4:
+			return abs.HB{192, 168, byte(r.Intn(256)), byte(r.Intn(256))}
+		}
+		return abs.HB(r.Bytes(4))
+	case 16:
+		b := make(abs.HB, 16)
+		switch r.Intn(10) {
+		case 0, 1, 2: // IPv4-mapped
+			b[10], b[11] = 0xff, 0xff
+			copy(b[12:], Addr(r, 4))
+		case 3: // ::
+		case 4:
+			b[15] = 1
+		case 5: // IPv4-compatible (deprecated)
+			copy(b[12:], Addr(r, 4))
+		case 6: // NAT64 well-known prefix
+			b[1], b[2], b[3] = 0x64, 0xff, 0x9b
+			copy(b[12:], Addr(r, 4))
+		case 7:
+			copy(b, r.Bytes(16))
+			b[0], b[1] = 0xfe, 0x80
+		default:
+			return DataN(r, 16)
+		}
+		return b
+	}
+	return DataN(r, n)
+}
+
+// IDData makes identification data that fits (or deliberately mis-fits) the ID type: addresses for ID_IPV4_ADDR /
+// ID_IPV6_ADDR (including the 16-octet form of an IPv4 address under ID_IPV4_ADDR), text for FQDN / RFC822.
+func IDData(r *R, typ uint8) abs.HB {
+	switch typ {
+	case 1:
+		switch r.Intn(4) {
+		case 0:
+			b := make(abs.HB, 16)
+			b[10], b[11] = 0xff, 0xff
+			copy(b[12:], Addr(r, 4))
+			return b
+		case 1:
+			return Addr(r, 16)
+		case 2:
+			return Data(r, 1)
+		}
+		return Addr(r, 4)
+	case 5:
+		if r.Chance(1, 4) {
+			return Addr(r, 4)
+		}
+		return Addr(r, 16)
+	case 2, 3:
+		if r.Bool() {
+			return abs.HB(r.PickS("n3iwf.5gc.mnc093.mcc208.pub.3gppnetwork.org", "user@example.org", "a"))
+		}
+	}
+	return Data(r, 1)
+}
+
+// NotifyData makes notification data in the shape the notify type calls for (RFC 7296 3.10.1, 3GPP TS 24.502 9.3.1),
+// so that type-specific code paths see values that look genuine.
+func NotifyData(r *R, typ uint16) abs.HB {
+	switch typ {
+	case 16388, 16389: // NAT_DETECTION_*: SHA-1 digest
+		return DataN(r, 20)
+	case 16390, 16401: // COOKIE, COOKIE2
+		return DataN(r, r.Pick(1, 8, 64))
+	case 16393: // REKEY_SA: none
+		return nil
+	case 16397:
+		return Addr(r, 4)
+	case 16398:
+		return Addr(r, 16)
+	case 17: // INVALID_KE_PAYLOAD: group
+		return abs.HB{0, byte(r.Pick(2, 14, 19))}
+	case 55501: // 5G_QOS_INFO: Length | PDU session id | number of QFIs | QFIs | flags | DSCP?
+		n := r.Pick(0, 1, 1, 2, 3, 8, 63, 64)
+		b := abs.HB{0, r.Byte(), byte(n)}
+		for i := 0; i < n; i++ {
+			b = append(b, byte(r.Pick(0, 1, 5, 9, 63, 63, 64, 255)))
+		}
+		fl := byte(r.Intn(4))
+		b = append(b, fl)
+		if fl&2 != 0 {
+			b = append(b, r.Byte())
+		}
+		b[0] = byte(len(b))
+		switch r.Intn(8) {
+		case 0:
+			b[0]++
+		case 1:
+			b[2] = byte(r.Pick(n+1, n+2, 255))
+		}
+		return b
+	case 55502, 55504:
+		if r.Chance(1, 4) {
+			return Addr(r, 16)
+		}
+		return Addr(r, 4)
+	case 55503, 55505:
+		return Addr(r, 16)
+	case 55506:
+		return DataN(r, 2)
+	}
+	return Data(r, 0)
+}
+
+// CPValue makes a configuration attribute value of the size the attribute type calls for (RFC 7296 3.15.1).
+func CPValue(r *R, typ uint16) abs.HB {
+	switch typ {
+	case 1, 2, 3, 4, 6: // INTERNAL_IP4_ADDRESS / NETMASK / DNS / NBNS / DHCP
+		return Addr(r, r.Pick(0, 4, 4, 4, 16))
+	case 8: // INTERNAL_IP6_ADDRESS: address + prefix length
+		if r.Chance(1, 4) {
+			return nil
+		}
+		return append(Addr(r, 16), byte(r.Pick(0, 64, 96, 128, 255)))
+	case 10, 12: // INTERNAL_IP6_DNS / DHCP
+		return Addr(r, r.Pick(0, 16, 16))
+	case 13: // INTERNAL_IP4_SUBNET
+		return append(Addr(r, 4), Addr(r, 4)...)
+	case 15: // INTERNAL_IP6_SUBNET
+		return append(Addr(r, 16), byte(r.Pick(0, 64, 96, 128)))
+	}
+	return Data(r, 0)
+}
+
 func Header(r *R) *abs.Msg {
 	m := &abs.Msg{}
 	switch r.Intn(6) {
@@ -167,10 +309,10 @@ func Selector(r *R) abs.Selector {
 	}
 	if r.Bool() {
 		s.Type = 7
-		s.StartAddr, s.EndAddr = DataN(r, 4), DataN(r, 4)
+		s.StartAddr, s.EndAddr = Addr(r, 4), Addr(r, 4)
 	} else {
 		s.Type = 8
-		s.StartAddr, s.EndAddr = DataN(r, 16), DataN(r, 16)
+		s.StartAddr, s.EndAddr = Addr(r, 16), Addr(r, 16)
 	}
 	return s
 }
@@ -206,7 +348,11 @@ func CP(r *R) abs.Payload {
 		default:
 			a.Type = r.U16() & 0x7fff
 		}
-		a.Value = Data(r, 0)
+		if r.Bool() {
+			a.Value = CPValue(r, a.Type)
+		} else {
+			a.Value = Data(r, 0)
+		}
 		c.Attrs = append(c.Attrs, a)
 	}
 	return abs.Payload{Kind: abs.PCP, CP: c}
@@ -215,10 +361,14 @@ func CP(r *R) abs.Payload {
 func Notify(r *R) abs.Payload {
 	n := &abs.Notify{Proto: uint8(r.Pick(0, 1, 2, 3, int(r.Byte()))), Type: r.U16()}
 	if r.Chance(1, 3) {
-		n.Type = uint16(r.Pick(1, 7, 14, 16384, 16388, 16393, 55501, 55502, 55504, 55506))
+		n.Type = uint16(r.Pick(1, 7, 14, 17, 16384, 16388, 16389, 16390, 16393, 16397, 16398, 55501, 55501, 55502, 55503, 55504, 55505, 55506))
 	}
 	n.SPI = DataN(r, spiSizesNotify[r.Intn(len(spiSizesNotify))])
-	n.Data = Data(r, 0)
+	if r.Bool() {
+		n.Data = NotifyData(r, n.Type)
+	} else {
+		n.Data = Data(r, 0)
+	}
 	return abs.Payload{Kind: abs.PNotify, Notify: n}
 }
 
@@ -340,7 +490,9 @@ func Payload(r *R, kind uint8) abs.Payload {
 	case abs.PKE:
 		return abs.Payload{Kind: kind, KE: &abs.KE{Group: uint16(r.Pick(2, 14, int(r.U16()))), Data: Data(r, 1)}}
 	case abs.PIDi, abs.PIDr:
-		return abs.Payload{Kind: kind, ID: &abs.ID{Type: uint8(r.Pick(1, 2, 3, 5, 9, 11, int(r.Byte()))), Data: Data(r, 1)}}
+		id := &abs.ID{Type: uint8(r.Pick(1, 1, 2, 3, 5, 9, 11, int(r.Byte())))}
+		id.Data = IDData(r, id.Type)
+		return abs.Payload{Kind: kind, ID: id}
 	case abs.PCERT, abs.PCERTREQ:
 		return abs.Payload{Kind: kind, Cert: &abs.Cert{Enc: uint8(r.Pick(1, 4, 7, int(r.Byte()))), Data: Data(r, 1)}}
 	case abs.PAUTH:
